@@ -139,7 +139,16 @@ impl RunCtx {
             s.armed = op.f.as_ref().map(|f| (f.c, f.k));
             s.refuse = op.r;
             s.requests_seen = 0;
-            s.callback_cap = if self.cfg.callback_cap == 0 { u64::MAX } else { self.cfg.callback_cap };
+            // Termination bound: a lawful-length operation costs at most O((buckets + elements of the operation)^2)
+            // callbacks when every hash collides and equality always fails (a union of two n-element sets under
+            // such a hash makes n^2/2 comparisons). Every bucket costs at least one live byte, so the number of
+            // live bytes bounds the bucket count; the configured cap is only the floor for small tables.
+            s.callback_cap = if self.cfg.callback_cap == 0 {
+                u64::MAX
+            } else {
+                let n = crate::alloc::live_bytes(&s) + op.v.len() as u64 + 64;
+                self.cfg.callback_cap.max(n.saturating_mul(n).saturating_mul(32))
+            };
             s.last_panic_msg = None;
         }
         let r = catch_unwind(AssertUnwindSafe(f));
